@@ -145,6 +145,7 @@ def build(v, named):
             named[v["$id"]] = o
             for f, x in v["fields"].items():
                 setattr(o, f, build(x, named))
+            SHAPED[id(o)] = (o, set(v["fields"]))
             return o
         if "$native" in v:
             return build_native(v, named)
@@ -155,6 +156,8 @@ def build(v, named):
 
 
 TMP_PATHS = []
+# objects built from a descriptor (not by their constructor): id -> (object, the fields the descriptor gave it)
+SHAPED = {}
 
 
 class NumSeq(list):
@@ -487,7 +490,12 @@ def run(replay, tolerant=False):
                 if any(b.__name__ == k for b in type(ex).__mro__):
                     declared = cond
                     break
-            if declared is None:
+            shaped = SHAPED.get(id(getattr(ex, "obj", None))) if isinstance(ex, AttributeError) else None
+            if shaped is not None and shaped[0] is ex.obj and getattr(ex, "name", None) not in shaped[1]:
+                # the code reads an attribute the contract's object shape does not have (e.g. one that a constructor
+                # would have set): nothing can be concluded from this input - undecided, not a violation
+                out["errors"].append(f"object shape of {type(ex.obj).__name__} lacks attribute {ex.name!r} read by the code")
+            elif declared is None:
                 out["failed"].append({"clause": f"undeclared {en} escapes", "kind": "exc"})
             else:
                 try:
@@ -674,6 +682,12 @@ def run_many(path):
         if not out.get("requires_ok", True):
             if len(res["errors"]) < 5 and not out.get("in_carve_out"):
                 res["errors"].append("requires false natively (float rounding of a model?): " + "; ".join(out["errors"])[:300])
+            continue
+        if any(str(e).startswith("object shape of") for e in out.get("errors", [])):
+            # nothing was evaluated on this input (the code reads an attribute the object shape lacks)
+            res["shape_errors"] = res.get("shape_errors", 0) + 1
+            if len(res["errors"]) < 5:
+                res["errors"].append(out["errors"][0])
             continue
         res["satisfying_requires"] += 1
         distinct.add(json.dumps(inputs, sort_keys=True, default=str)[:4000])
